@@ -33,13 +33,16 @@ const (
 	OpFill
 	OpByz
 	OpQiBurst
+	OpDeploy
+	OpLockupMode
+	OpClaim
 	numOpKinds
 )
 
-var opKindNames = []string{"mine", "transfer", "convert", "qispend", "rewind", "switch", "fill", "byz", "qiburst"}
+var opKindNames = []string{"mine", "transfer", "convert", "qispend", "rewind", "switch", "fill", "byz", "qiburst", "deploy", "lockupmode", "claim"}
 
 // weighted kind table (index drawn uniformly)
-var opKindTable = []int{OpMine, OpMine, OpMine, OpMine, OpMine, OpTransfer, OpTransfer, OpConvert, OpConvert, OpQiSpend, OpQiSpend, OpQiSpend, OpRewind, OpSwitch, OpFill, OpByz, OpByz, OpByz, OpQiBurst}
+var opKindTable = []int{OpMine, OpMine, OpMine, OpMine, OpMine, OpTransfer, OpTransfer, OpConvert, OpConvert, OpQiSpend, OpQiSpend, OpQiSpend, OpRewind, OpSwitch, OpFill, OpByz, OpByz, OpByz, OpQiBurst, OpDeploy, OpLockupMode, OpLockupMode, OpClaim, OpClaim}
 
 var OpGen = rapid.Custom(func(t *rapid.T) Op {
 	return Op{
@@ -84,6 +87,11 @@ type Runner struct {
 	ended bool
 	txSeq int64
 	qiFeeShapes map[string]bool
+	// Contracts are the forwarder contracts the harness tried to deploy (address known at signing time).
+	Contracts []common.Address
+	// LockupMode is the (lockup byte, contract or nil) the miner currently asks for.
+	LockByte     uint8
+	LockContract *common.Address
 }
 
 var transferValues = []*big.Int{big.NewInt(1), big.NewInt(1e9), new(big.Int).Mul(big.NewInt(3), big.NewInt(params.Ether)), new(big.Int).Mul(big.NewInt(50), big.NewInt(params.Ether))}
@@ -167,6 +175,72 @@ func (r *Runner) Step(op Op) bool {
 		tx, err := w.QuaiTransfer(from, to, val, r.gasPrice(2), 21000*4+uint64(op.D%3)*21000, nil, nonce)
 		if err == nil {
 			r.addTx(tx, "convert")
+		}
+	case OpDeploy:
+		if len(r.Contracts) >= 2 {
+			return true
+		}
+		from := op.A % 4
+		nonce := n.Zone().Slice().TxPool().Nonce(quaiAccounts[from].Int)
+		tx, addr, err := w.DeployTx(from, nonce, r.gasPrice(3))
+		if err == nil {
+			r.addTx(tx, "deploy")
+			r.Contracts = append(r.Contracts, addr)
+			w.Tr.Event("deploy contract=%x", addr.Bytes()[:6])
+		}
+	case OpLockupMode:
+		r.LockByte = uint8(op.A % 4)
+		r.LockContract = nil
+		if len(r.Contracts) > 0 && op.B%3 != 0 {
+			c := r.Contracts[op.B%len(r.Contracts)]
+			r.LockContract = &c
+		}
+		n.Zone().SetLockupByte(r.LockByte)
+		n.Zone().Slice().VerifSetLockupContract(r.LockContract)
+		w.Tr.Event("lockupmode byte=%d contract=%v", r.LockByte, r.LockContract != nil)
+	case OpClaim:
+		if len(r.Contracts) == 0 {
+			return true
+		}
+		c := r.Contracts[op.A%len(r.Contracts)]
+		miner, to := n.Cfg.QuaiCoinbase, quaiAccounts[4].Addr
+		if op.B%3 == 1 {
+			miner, to = n.Cfg.QiCoinbase, qiAccounts[14].Addr
+		}
+		head := n.Zone().CurrentHeader().NumberU64(common.ZONE_CTX)
+		latest := uint32(head/params.CoinbaseEpochBlocks) + 1
+		epoch := uint32(1)
+		if latest > 1 {
+			epoch = 1 + uint32(op.D)%latest // sometimes the current (not yet claimable) epoch
+		}
+		lockByte := byte(op.C % 4)
+		// three times out of four aim at a lockup that actually exists (whether or not it is claimable yet)
+		if op.D%4 != 3 {
+			keys, _ := ScanPrefix(n.DBs[common.ZONE_CTX], rawdb.CoinbaseLockupPrefix)
+			var real []string
+			for _, k := range keys {
+				if len(k) == rawdb.CoinbaseLockupKeyLength {
+					real = append(real, k)
+				}
+			}
+			if len(real) > 0 {
+				if oc, m, lb, ep, err := rawdb.ReverseCoinbaseLockupKey([]byte(real[(op.A+op.B)%len(real)]), LocZone); err == nil {
+					miner, lockByte, epoch = m, lb, ep
+					if op.C%5 != 4 {
+						c = oc // otherwise: a contract that does not own the lockup tries to claim it
+					}
+					to = quaiAccounts[4].Addr
+					if m.IsInQiLedgerScope() {
+						to = qiAccounts[14].Addr
+					}
+				}
+			}
+		}
+		from := op.A % 4
+		nonce := n.Zone().Slice().TxPool().Nonce(quaiAccounts[from].Int)
+		tx, err := w.ContractCallTx(from, c, ClaimInput(miner, to, lockByte, epoch, 30000), nonce, r.gasPrice(3), 400000)
+		if err == nil {
+			r.addTx(tx, "claim")
 		}
 	case OpQiSpend:
 		r.qiSpend(op)
